@@ -38,7 +38,7 @@ def run(tier, seed, replay=None):
             cs.append(([80, 20, 0][i % 3], [2, 4, 1][i % 3], a, b, s))
     # regressions of repaired defects run first
     cs = [(80, 2, 3, 16, "$ mat(;,;,11,,) $\n"), (80, 2, 12, 12, "/ a: // c\n\n  \n    b\n"),
-          (80, 2, 12, 14, "1. @b[b]$1$\n  \\*\n")] + cs
+          (80, 2, 12, 14, "1. @b[b]$1$\n  \\*\n"), (80, 2, 1, 4, "#(2)w"), (80, 2, 2, 5, "$#(2)w$")] + cs
     if replay and isinstance(replay.get("input"), dict) and "source" in replay["input"]:
         i = replay["input"]
         cs.insert(0, (i.get("width", 80), i.get("tab", 2), i["start"], i["end"], i["source"]))
@@ -67,9 +67,9 @@ def run(tier, seed, replay=None):
     ck.oblige("K6: format_source_range == Partial.format_range (class, returned range, bytes) on %d cases" % len(res), not dis,
               ("first: %r" % (dis[0]["case"][:4] + (dis[0]["case"][4][:200],),))[:600] if dis else "")
     # hypothesis of C13_range_total: the schema clause on every well-formed tree (erroneous sources are refused before it matters)
-    sw = [d for d in res if d.get("model_swfc") is not None and d.get("class") == "ok"]
+    sw = [d for d in res if d.get("model_swfc") is not None]
     notsw = [d for d in sw if not d["model_swfc"]]
-    ck.oblige("hypothesis of C13_range_total: the extracted schema clause `swfc` holds on the %d trees whose range was formatted" % len(sw), not notsw,
+    ck.oblige("hypothesis of C13_range_total: the extracted schema clause `swfc` holds on the node to format in all %d range cases" % len(sw), not notsw,
               ("first: %r" % (notsw[0]["case"][:4] + (notsw[0]["case"][4][:200],),))[:600] if notsw else "")
     viol = [d for d in res if d.get("c13") == "0" and not shrink.in_known_class(d, "c01")]
     known = [d for d in res if d.get("c13") == "0" and shrink.in_known_class(d, "c01")]
